@@ -372,6 +372,21 @@ func evalT(t *Term, env map[string]*big.Rat) *big.Rat {
 	if v, ok := env[t.Key()]; ok {
 		return v
 	}
+	if t.Op == "call" && (t.S == "op%" || t.S == "intmod") && len(t.Args) == 2 {
+		a, b := evalT(t.Args[0], env), evalT(t.Args[1], env)
+		if a.IsInt() && b.IsInt() && b.Sign() != 0 {
+			return new(big.Rat).SetInt(new(big.Int).Rem(a.Num(), b.Num())) // Go's % truncates toward zero
+		}
+	}
+	if t.Op == "sel" && len(t.Args) == 1 && t.Args[0].Op != "c" {
+		// an element selected by a computed index: evaluate the index, read that element
+		if idx := evalT(t.Args[0], env); idx.IsInt() {
+			el := &Term{Op: "sel", S: t.S, Args: []*Term{KR(idx)}}
+			if v, ok := env[el.Key()]; ok {
+				return v
+			}
+		}
+	}
 	panic(fmt.Sprintf("evalT: unbound %s", t.Key()))
 }
 
